@@ -5,6 +5,7 @@ package main
 
 import (
 	"fmt"
+	"os"
 	"go/types"
 	"math/big"
 	"strings"
@@ -77,6 +78,49 @@ func init() {
 		return it.ctx.Bin(OpSle, it.ctx.Int(0), r)
 	}
 	models["bytes.Contains"] = models["strings.Contains"]
+	models["strings.Count"] = func(it *Interp, fr *frame, args []Value, fn *ssa.Function) Value {
+		c := it.ctx
+		s, sep := args[0].(Bytes), args[1].(Bytes)
+		needle, ok := it.concreteString(sep)
+		if !ok {
+			unsupported("Count with symbolic separator")
+		}
+		if str, ok := it.concreteString(s); ok {
+			return c.Int(int64(strings.Count(str, needle)))
+		}
+		if len(needle) == 0 {
+			unsupported("Count with empty separator on a symbolic string")
+		}
+		if len(needle) != 1 || !s.Len.IsConst() {
+			// non-overlapping occurrences, left to right (forks per position)
+			cnt := 0
+			for i := 0; ; {
+				if !it.branch(c.Bin(OpUle, c.Int(int64(i+len(needle))), s.Len)) {
+					return c.Int(int64(cnt))
+				}
+				m := c.True
+				for j := 0; j < len(needle); j++ {
+					m = c.And(m, c.Eq(it.bytesAt(s, c.Int(int64(i+j))), c.BV(uint64(needle[j]), 8)))
+				}
+				if it.branch(m) {
+					cnt++
+					i += len(needle)
+				} else {
+					i++
+				}
+				if i > 4096 {
+					unsupported("Count over a very long symbolic string")
+				}
+			}
+		}
+		n := c.Int(0)
+		for i := 0; i < int(s.Len.k); i++ {
+			hit := c.Eq(it.bytesAt(s, c.Int(int64(i))), c.BV(uint64(needle[0]), 8))
+			n = c.Bin(OpAdd, n, c.Ite(hit, c.Int(1), c.Int(0)))
+		}
+		return n
+	}
+	models["bytes.Count"] = models["strings.Count"]
 	models["strings.ReplaceAll"] = modelReplaceAll
 	models["strings.Repeat"] = modelRepeat
 	models["bytes.Repeat"] = modelRepeat
@@ -110,15 +154,17 @@ func init() {
 		p := it.prog.ImportedPackage("strconv")
 		return it.callSSABody(fr, p.Func("Itoa"), args)
 	}
-	models["strings.TrimRight"] = func(it *Interp, fr *frame, args []Value, fn *ssa.Function) Value {
-		return it.trimModel(args[0].(Bytes), args[1].(Bytes), false, true)
+	trimWrap := func(name string, left, right bool) modelFn {
+		return func(it *Interp, fr *frame, args []Value, fn *ssa.Function) Value {
+			if r := it.trimModel(args[0].(Bytes), args[1].(Bytes), left, right); r != nil {
+				return r
+			}
+			return it.callSSABody(fr, fn, args) // symbolic length / other cutsets: interpret the real code
+		}
 	}
-	models["strings.TrimLeft"] = func(it *Interp, fr *frame, args []Value, fn *ssa.Function) Value {
-		return it.trimModel(args[0].(Bytes), args[1].(Bytes), true, false)
-	}
-	models["strings.Trim"] = func(it *Interp, fr *frame, args []Value, fn *ssa.Function) Value {
-		return it.trimModel(args[0].(Bytes), args[1].(Bytes), true, true)
-	}
+	models["strings.TrimRight"] = trimWrap("TrimRight", false, true)
+	models["strings.TrimLeft"] = trimWrap("TrimLeft", true, false)
+	models["strings.Trim"] = trimWrap("Trim", true, true)
 	models["unicode.IsPrint"] = func(it *Interp, fr *frame, args []Value, fn *ssa.Function) Value {
 		c := it.ctx
 		r := args[0].(*Term) // rune, 32 bit
@@ -144,7 +190,11 @@ func init() {
 		g := args[0].(GSlice)
 		parts := make([]string, len(g.D))
 		for i, e := range g.D {
-			parts[i] = fmt.Sprint(it.concInt(e))
+			t := e.(*Term)
+			if !t.IsConst() {
+				return it.opaqueString() // symbolic arcs: the text is only used for display / table look-up
+			}
+			parts[i] = fmt.Sprint(t.Sint())
 		}
 		return it.strVal(strings.Join(parts, "."))
 	}
@@ -371,6 +421,86 @@ func init() {
 	}
 }
 
+// encoding/asn1.Unmarshal: exact model for *asn1.ObjectIdentifier targets (DER tag 06, short length,
+// base-128 arcs exactly as encoding/asn1 parses them); other targets are handled by stubs.
+func init() {
+	models["encoding/asn1.Unmarshal"] = func(it *Interp, fr *frame, args []Value, fn *ssa.Function) Value {
+		c := it.ctx
+		b := args[0].(Bytes)
+		target := args[1].(Iface)
+		pt, ok := target.T.(*types.Pointer)
+		if !ok || pt.Elem().String() != "encoding/asn1.ObjectIdentifier" {
+			if h, ok := it.cfg.stubs["encoding/asn1.Unmarshal:other"]; ok {
+				return h(it, fr, args, fn)
+			}
+			unsupported("asn1.Unmarshal into %s", target.T)
+		}
+		fail := func(msg string) Value {
+			return Tuple{Bytes{Off: c.Int(0), Len: c.Int(0), Cap: c.Int(0)}, it.newError("asn1: "+msg, nil)}
+		}
+		n := it.concLen(b)
+		if n < 2 {
+			return fail("syntax error: truncated tag or length")
+		}
+		at := func(i int) *Term { return it.bytesAt(b, c.Int(int64(i))) }
+		if !it.branch(c.Eq(at(0), c.BV(6, 8))) {
+			return fail("structure error: tags don't match")
+		}
+		ln := at(1)
+		if it.branch(c.Bin(OpUle, c.BV(0x80, 8), ln)) {
+			unsupported("asn1 OID with long-form length")
+		}
+		l := it.concInt(c.ZExt(ln, 64))
+		if 2+l > n {
+			return fail("syntax error: data truncated")
+		}
+		if l == 0 {
+			return fail("syntax error: zero length OBJECT IDENTIFIER")
+		}
+		// arcs
+		var arcs []*Term
+		off := 2
+		end := 2 + l
+		for off < end {
+			v := c.Int(0)
+			done := false
+			for shifted := 0; off < end; shifted++ {
+				if shifted == 5 {
+					return fail("structure error: base 128 integer too large")
+				}
+				x := at(off)
+				if shifted == 0 && it.branch(c.Eq(x, c.BV(0x80, 8))) {
+					return fail("syntax error: integer is not minimally encoded")
+				}
+				v = c.Bin(OpBvOr, c.Bin(OpShl, v, c.Int(7)), c.ZExt(c.Bin(OpBvAnd, x, c.BV(0x7f, 8)), 64))
+				off++
+				if it.branch(c.Eq(c.Bin(OpBvAnd, x, c.BV(0x80, 8)), c.BV(0, 8))) {
+					if it.branch(c.Bin(OpSlt, c.Int(0x7fffffff), v)) {
+						return fail("structure error: base 128 integer too large")
+					}
+					done = true
+					break
+				}
+			}
+			if !done {
+				return fail("syntax error: truncated base 128 integer")
+			}
+			arcs = append(arcs, v)
+		}
+		var out []Value
+		first := arcs[0]
+		lt80 := c.Bin(OpSlt, first, c.Int(80))
+		out = append(out, c.Ite(lt80, c.Bin(OpSDiv, first, c.Int(40)), c.Int(2)))
+		out = append(out, c.Ite(lt80, c.Bin(OpSRem, first, c.Int(40)), c.Bin(OpSub, first, c.Int(80))))
+		for _, a := range arcs[1:] {
+			out = append(out, a)
+		}
+		it.store(target.V, GSlice{D: out})
+		rest := Bytes{Obj: b.Obj, Off: c.Bin(OpAdd, b.Off, c.Int(int64(end))), Len: c.Int(int64(n - end)), Cap: c.Int(int64(n - end))}
+		return Tuple{rest, Iface{}}
+	}
+}
+
 func (it *Interp) libGlobal(pkg, name string) *ssa.Global {
 	p := it.prog.ImportedPackage(pkg)
 	if p == nil {
@@ -406,7 +536,7 @@ func (it *Interp) trimModel(s, cutset Bytes, left, right bool) Value {
 	c := it.ctx
 	cs, ok := it.concreteString(cutset)
 	if !ok || len(cs) != 1 || cs[0] >= 0x80 || !s.Len.IsConst() || s.Len.k > 256 {
-		unsupported("Trim with cutset %q / symbolic length", cs)
+		return nil
 	}
 	n := int(s.Len.k)
 	if n == 0 {
@@ -466,6 +596,7 @@ func (it *Interp) opaqueString() Bytes {
 	}
 	it.nOpaque++
 	ln := c.Var(fmt.Sprintf("opq%d", it.nOpaque), 64)
+	it.opaqueLens[int32(ln.id)] = true
 	it.constrain(c.Bin(OpUlt, ln, c.Int(1<<20)), ln, 0)
 	o.capT = ln
 	return Bytes{Obj: o, Off: c.Int(0), Len: ln, Cap: ln, Str: true}
@@ -900,6 +1031,36 @@ func init() {
 			it.callFn(fr, args[0], nil, nil)
 		}()
 		return res
+	}
+	intrinsics["verifDump"] = func(it *Interp, fr *frame, args []Value, fn *ssa.Function) Value {
+		fmt.Fprintf(os.Stderr, "DUMP id=%d %s\n", args[0].(*Term).id, args[0].(*Term).str(8))
+		return nil
+	}
+	intrinsics["verifDiff"] = func(it *Interp, fr *frame, args []Value, fn *ssa.Function) Value {
+		a, b := args[0].(*Term), args[1].(*Term)
+		for depth := 0; depth < 200; depth++ {
+			if a == b {
+				fmt.Fprintln(os.Stderr, "DIFF: equal")
+				return nil
+			}
+			if a.op != b.op || len(a.args) != len(b.args) || a.k != b.k || a.name != b.name || a.w != b.w {
+				break
+			}
+			nd := 0
+			var na, nb *Term
+			for i := range a.args {
+				if a.args[i] != b.args[i] {
+					nd++
+					na, nb = a.args[i], b.args[i]
+				}
+			}
+			if nd != 1 {
+				break
+			}
+			a, b = na, nb
+		}
+		fmt.Fprintf(os.Stderr, "DIFF:\n  A = %s\n  B = %s\n", a.str(7), b.str(7))
+		return nil
 	}
 	intrinsics["verifSymbolic"] = func(it *Interp, fr *frame, args []Value, fn *ssa.Function) Value {
 		return it.ctx.True
